@@ -233,13 +233,32 @@ def robin_residual(pf, mesh, cname, var):
     return worst, where
 
 
+def bc_cases(ctx, pf, tag, reps_q=5, reps_t=30, allow_periodic=True):
+    """systematic cases first (per class: graded N=3 mesh with unequal end cells, every side Robin / inhomogeneous Neumann / Dirichlet with
+    face-wise coefficients), then seeded random ones"""
+    from suites.bcsuite import set_random_bcs
+    rng = random.Random(f"{tag}-sys-{ctx.seed}")
+    for cname in gen.CLASSES:
+        d = gen.DIM[cname]
+        for kind in ("robin", "neumann", "dirichlet"):
+            fs = [gen.faces(rng, gen.AXKIND[cname][a], 3) for a in range(d)]
+            for f in fs:
+                if abs((f[1] - f[0]) - (f[-1] - f[-2])) < 1e-12:
+                    f[-1] = f[-1] + (f[-1] - f[-2]) / 2
+            mesh = gen.build_mesh(pf, cname, fs)
+            BC, desc, per = set_random_bcs(rng, mesh, cname, allow_periodic=False, kinds=[kind])
+            yield rng, cname, fs, mesh, BC, desc, per
+    for rng, cname, fs, mesh in cases(ctx, pf, tag, reps_q=reps_q, reps_t=reps_t):
+        BC, desc, per = set_random_bcs(rng, mesh, cname, allow_periodic=allow_periodic)
+        yield rng, cname, fs, mesh, BC, desc, per
+
+
 def probe_c03(ctx, pf):
     from suites.bcsuite import set_random_bcs, bc_label
     from scipy.sparse.linalg import spsolve
     n = 0
-    for rng, cname, fs, mesh in cases(ctx, pf, "c03", reps_q=5, reps_t=30):
+    for rng, cname, fs, mesh, BC, desc, per in bc_cases(ctx, pf, "c03", reps_q=5, reps_t=30):
         d = len(mesh.dims)
-        BC, desc, per = set_random_bcs(rng, mesh, cname)
         inner = gen.cell_array(rng, mesh)[interior_slices(d)]
         L = lab(cname, fs, bc=bc_label(BC, d), kinds=desc, phi_interior=inner)
         try:
@@ -294,9 +313,8 @@ def probe_c04(ctx, pf):
     from suites.bcsuite import set_random_bcs, bc_label
     from scipy.sparse.linalg import spsolve
     n = 0
-    for rng, cname, fs, mesh in cases(ctx, pf, "c04", reps_q=4, reps_t=25):
+    for rng, cname, fs, mesh, BC, desc, per in bc_cases(ctx, pf, "c04", reps_q=4, reps_t=25):
         d = len(mesh.dims)
-        BC, desc, per = set_random_bcs(rng, mesh, cname)
         inner = gen.cell_array(rng, mesh)[interior_slices(d)]
         L = lab(cname, fs, bc=bc_label(BC, d), kinds=desc, phi_interior=inner)
         with np.errstate(all="ignore"):
@@ -314,7 +332,17 @@ def probe_c04(ctx, pf):
             Mbc, Rbc = pf.boundaryConditionsTerm(BC)
             ret = pf.solvePDE(phi, terms, externalsolver=solver)
             Mh = Mbc + Mt - 2.0 * Md + Mu; Rh = Rbc + Rt + 0.5 * Rg
-        n += 3
+        n += 4
+        # the values stored in the variable (interior as solved, boundary values re-imposed) satisfy every interior equation
+        cs_ = [mesh.cellsize._x, mesh.cellsize._y, mesh.cellsize._z]
+        per_nonuni = any(per[ax] and abs(cs_[ax][0] - cs_[ax][-1]) > 1e-14 for ax in range(d))
+        if not per_nonuni and np.all(np.isfinite(ret._value)) and np.max(np.abs(ret._value)) < 1e6:
+            xs = np.asarray(ret._value).ravel()
+            Mi = (Mt - 2.0 * Md + Mu); Ri = Rt + 0.5 * Rg
+            res = np.asarray(Mi @ xs - Ri).reshape(full_shape(mesh))[interior_slices(d)]
+            sc = np.asarray(abs(Mi) @ np.abs(xs) + np.abs(Ri)).reshape(full_shape(mesh))[interior_slices(d)] + 1.0
+            if float(np.max(np.abs(res) / sc)) > 1e-8:
+                ctx.violation(f"c04:{cname}:stored-residual", f"{cname}: the values stored by solvePDE do not satisfy the interior equations (max relative residual {float(np.max(np.abs(res) / sc)):.3g})", L)
         if ret is not phi:
             ctx.violation(f"c04:{cname}:identity", f"{cname}: solvePDE does not return the variable it was given", L)
         if abs(spy["M"] - Mh).max() > 1e-9 * (1 + abs(Mh).max()) or rel(spy["R"], Rh) > 1e-9:
@@ -379,6 +407,24 @@ def probe_c12(ctx, pf):
             n += 1
             if rel(x.value, inner) > 1e-6:
                 ctx.violation(f"c12:{cname}:dt-zero", f"{cname}: a step with dt=1e-12 does not return the old field", L)
+            # multi-step history on ONE variable object: repeated dt with changing alpha (scalar / field), then changing dt
+            xv = pf.CellVariable(mesh, inner, BC)
+            Ms = spatial[0] + spatial[1] + spatial[2]      # (-diffusion) + upwind + sink
+            bvec = spatial[3]
+            seq = [(0.5, 1.0), (0.5, 3.0), (0.5, pf.CellVariable(mesh, np.abs(gen.cell_array(rng, mesh))[interior_slices(d)] + 0.5)), (0.125, 2.0), (0.125, 0.25)]
+            for dt_k, al_k in seq:
+                oldv = np.array(xv.value)
+                pf.solvePDE(xv, [pf.transientTerm(xv, dt_k, al_k)] + spatial)
+                newv = np.array(xv.value)
+                al_arr = np.asarray(al_k.value) if hasattr(al_k, "value") else al_k
+                lhs = al_arr * (newv - oldv) / dt_k + np.asarray(Ms @ xv._value.ravel()).reshape(full_shape(mesh))[interior_slices(d)]
+                rhs_i = bvec.reshape(full_shape(mesh))[interior_slices(d)]
+                n += 1
+                sc_ = 1.0 + np.max(np.abs(rhs_i)) + np.max(np.abs(al_arr * newv / dt_k))
+                if np.all(np.isfinite(newv)) and float(np.max(np.abs(lhs - rhs_i))) > 1e-8 * sc_:
+                    ctx.violation(f"c12:{cname}:BE-identity", f"{cname}: alpha*(new-old)/dt + S new = b fails in a multi-step sequence on one variable (dt={dt_k}, alpha={'field' if hasattr(al_k, 'value') else al_k})",
+                                  dict(L, sequence=[(a, 'field' if hasattr(b_, 'value') else b_) for a, b_ in seq]))
+                    break
             # explicit step
             old = pf.CellVariable(mesh, inner, BC)
             before = np.array(old._value)
@@ -678,6 +724,30 @@ def probe_c17(ctx, pf):
             if e > 1e-7:
                 ctx.violation(f"c17:{cname}:solution", f"{cname}: the solution of the rescaled problem is not K times the original (step/variant {i}, rel dev {e:.3g}, L={Lc:g}, T={Tc:g}, K={Kc:g})", dict(L, variant=i))
                 break
+        # cell-to-face means: scaling the field by K and lengths by L scales every mean by K
+        pos = np.abs(gen.cell_array(rng, mesh, p0=0.0)) + 0.25
+        kk = Lc * Lc / Tc
+        for mean in ("linearMean", "arithmeticMean", "geometricMean", "harmonicMean"):
+            with np.errstate(all="ignore"):
+                m1_ = getattr(pf, mean)(pf.CellVariable(mesh, pos)); m2_ = getattr(pf, mean)(pf.CellVariable(mesh2, pos * kk))
+            n += 1
+            for c_ in ("_xvalue", "_yvalue", "_zvalue")[:d]:
+                a_, b_ = np.asarray(getattr(m1_, c_)), np.asarray(getattr(m2_, c_))
+                if not np.allclose(b_, a_ * kk, rtol=1e-10, atol=0):
+                    ctx.violation(f"c17:{cname}:{mean}", f"{cname}: {mean} is not homogeneous: scaling lengths by {Lc:g} and the field by {kk:g} does not scale the face values by {kk:g}",
+                                  dict(L, mean=mean))
+                    break
+        # the same solve with the diffusivity brought to the faces by harmonicMean of a cell field of dimension L^2/T
+        def run_h(mesh_, BC_, l, t, k):
+            phi_ = pf.CellVariable(mesh_, inner * k, BC_)
+            Dh = pf.harmonicMean(pf.CellVariable(mesh_, pos * l * l / t))
+            pf.solvePDE(phi_, [pf.transientTerm(phi_, 0.25 * t, 1.0), -pf.diffusionTerm(Dh)])
+            return np.array(phi_.value)
+        with np.errstate(all="ignore"):
+            h1 = run_h(mesh, BC, 1.0, 1.0, 1.0); h2 = run_h(mesh2, BC2, Lc, Tc, Kc)
+        n += 1
+        if np.all(np.isfinite(h1)) and np.max(np.abs(h1)) < 1e6 and float(np.max(np.abs(h2 / Kc - h1)) / (1 + np.max(np.abs(h1)))) > 1e-7:
+            ctx.violation(f"c17:{cname}:solution-harmonic-D", f"{cname}: with D = harmonicMean(k) the rescaled problem does not give K times the solution (L={Lc:g}, T={Tc:g}, K={Kc:g})", L)
         # linearity in the coefficient fields
         D1 = pf.FaceVariable(mesh, *Da); D2 = pf.FaceVariable(mesh, *gen.face_arrays(rng, mesh, lo=0.0, hi=2.0))
         Ds = pf.FaceVariable(mesh, *[2.5 * a + b for a, b in zip((D1._xvalue, D1._yvalue, D1._zvalue), (D2._xvalue, D2._yvalue, D2._zvalue))])
@@ -977,11 +1047,36 @@ def probe_c14(ctx, pf):
                     results += [("funceval", pf.funceval(lambda x: x * 2.0, A)), ("celleval", pf.celleval(lambda x, y: x + y, A, mk())), ("copy", A.copy())]
                 else:
                     results += [("faceeval", pf.faceeval(lambda x: x * 2.0, A))]
+            refs = {"neg": lambda a: -a, "abs": np.abs, "funceval": lambda a: a * 2.0, "faceeval": lambda a: a * 2.0, "copy": lambda a: a}
             for nm, r in results:
                 n += 1
                 al = _aliases(arrs_of(r), op_arrs)
                 if al or not _same(before, op_arrs):
                     ctx.violation(f"c14:{kind}:{nm}", f"{kind}: {nm} {'modified its operand' if not al else al}", dict(L, op=nm))
+                if nm in refs:
+                    if kind == "cell":
+                        okv = np.allclose(np.asarray(r.value), refs[nm](np.asarray(A.value)), rtol=1e-13, atol=0)
+                    else:
+                        okv = all(np.allclose(getattr(r, c_), refs[nm](getattr(A, c_)), rtol=1e-13, atol=0) for c_ in ("_xvalue", "_yvalue", "_zvalue")[:d])
+                    if not okv:
+                        ctx.violation(f"c14:{kind}:{nm}:values", f"{kind}: {nm} is not the elementwise result on interior values", dict(L, op=nm))
+                if kind == "cell":
+                    if r.BCs is A.BCs:
+                        ctx.violation(f"c14:cell:{nm}:bcs-shared", f"cell: result of {nm} shares the BoundaryConditions object of its operand", dict(L, op=nm))
+                    for ax in range(d):
+                        for sd in SIDES[ax]:
+                            f1, f2 = getattr(r.BCs, sd), getattr(A.BCs, sd)
+                            if not (np.array_equal(f1.a, f2.a) and np.array_equal(f1.b, f2.b) and np.array_equal(f1.c, f2.c)):
+                                ctx.violation(f"c14:cell:{nm}:bcs-values", f"cell: result of {nm} does not carry the boundary conditions of its operand", dict(L, op=nm))
+                    if nm != "copy":
+                        with np.errstate(all="ignore"):
+                            fresh = pf.boundary.cellValuesWithBoundaries(np.array(r.value), r.BCs)
+                        if not np.allclose(np.asarray(r._value), fresh, rtol=1e-12, atol=1e-12, equal_nan=True):
+                            ctx.violation(f"c14:cell:{nm}:ghost", f"cell: boundary values of the result of {nm} are not consistent with the boundary conditions it carries", dict(L, op=nm))
+                    # later modification of the result must not reach the operand (values or boundary conditions)
+                    r.BCs.left.c = 77.0; r.value = np.asarray(r.value) * 0 + 5.0
+                    if not _same(before, op_arrs):
+                        ctx.violation(f"c14:cell:{nm}:later-mod", f"cell: modifying the result of {nm} changed its operand", dict(L, op=nm))
             if kind == "cell":
                 c = A.copy()
                 if not (np.array_equal(c._value, A._value) and c.BCs is not A.BCs):
@@ -1134,7 +1229,7 @@ def exact_solve(M, rhs):
     return x
 
 
-def divfree_velocity(rng, pf, mesh, cname, fs):
+def divfree_velocity(rng, pf, mesh, cname, fs, want_ax=None, want_sign=None):
     """one-directional flow along an axis with A(f)*u(f) constant along that axis (discretely divergence-free), or a discrete
     stream function on Grid2D.  Returns (FaceVariable, flow axis or None)."""
     d = len(mesh.dims)
@@ -1143,7 +1238,7 @@ def divfree_velocity(rng, pf, mesh, cname, fs):
     if d >= 2: arrs.append(np.zeros((dims[0], dims[1] + 1) + tuple(dims[2:])))
     if d >= 3: arrs.append(np.zeros((dims[0], dims[1], dims[2] + 1)))
     while len(arrs) < 3: arrs.append(np.array([]))
-    if cname == "Grid2D" and rng.random() < 0.5:
+    if cname == "Grid2D" and want_ax is None and rng.random() < 0.5:
         psi = np.zeros((dims[0] + 1, dims[1] + 1))
         psi[1:-1, 1:-1] = [[rng.uniform(-1, 1) for _ in range(dims[1] - 1)] for _ in range(dims[0] - 1)] if dims[0] > 1 and dims[1] > 1 else 0
         dxs, dys = np.diff(fs[0]), np.diff(fs[1])
@@ -1153,11 +1248,13 @@ def divfree_velocity(rng, pf, mesh, cname, fs):
     cands = [ax for ax in range(d) if not (gen.AXKIND[cname][ax] == "rad" and fs[0][0] == 0.0)]
     if not cands:
         return pf.FaceVariable(mesh, *arrs), None
-    ax = rng.choice(cands)
+    ax = want_ax if (want_ax in cands) else rng.choice(cands)
     rf = np.asarray(fs[0], dtype=float)
     tshape = [dims[i] for i in range(d) if i != ax]
     q = np.array([rng.uniform(-2, 2) for _ in range(int(np.prod(tshape)) if tshape else 1)]).reshape(tshape if tshape else (1,))
-    if rng.random() < 0.5:
+    if want_sign is not None:
+        q = np.abs(q) * want_sign
+    elif rng.random() < 0.5:
         q = np.abs(q) * rng.choice([-1.0, 1.0])
     if gen.AXKIND[cname][ax] == "rad":
         A = rf if cname.startswith("Cyl") or cname.startswith("Polar") else rf ** 2
@@ -1177,9 +1274,13 @@ def divfree_velocity(rng, pf, mesh, cname, fs):
 def probe_c07(ctx, pf):
     from scipy.sparse.linalg import spsolve
     n = 0
-    for rng, cname, fs, mesh in cases(ctx, pf, "c07", reps_q=6, reps_t=40, nmin=2, nmax_q=4, nmax_t=6):
+    counter = {}
+    for rng, cname, fs, mesh in cases(ctx, pf, "c07", reps_q=8, reps_t=40, nmin=2, nmax_q=4, nmax_t=6):
         d = len(mesh.dims)
-        u, flow_ax = divfree_velocity(rng, pf, mesh, cname, fs)
+        k_ = counter.get(cname, 0); counter[cname] = k_ + 1
+        # the first 2*d cases of a class run through every axis with both flow directions; the rest are random
+        want_ax, want_sign = ((k_ // 2) % d, (1.0 if k_ % 2 == 0 else -1.0)) if k_ < 2 * d else (None, None)
+        u, flow_ax = divfree_velocity(rng, pf, mesh, cname, fs, want_ax, want_sign)
         divu = pf.divergenceTerm(u)
         if np.max(np.abs(divu)) > 1e-9 * (1 + max(np.max(np.abs(a)) if a.size else 0 for a in (u._xvalue, u._yvalue, u._zvalue))):
             continue   # generator could not make it divergence-free (should not happen)
